@@ -222,33 +222,40 @@ def run(F, R, tier):
             for c in H.calls(h, re.compile(r"RoaringBitmap::" + prim + "$")):
                 a = H.call_args(c)
                 r3.require(H.origins(a[0], env) == {("param", "self", "0")} and H.origins(a[1], env) == {("param", "index")}, (RB + "::" + m, "args"), "%s does not apply %s(index) to its own bitmap" % (m, prim))
-    # resolve_revocation_bitmap: resolve_service(query) then RevocationBitmap::try_from
+    # resolve_revocation_bitmap, by abstract evaluation: every accepting path resolved the service with the given query in this
+    # document ✓ and returns RevocationBitmap::try_from(that service)
     cands = F.find(r"RevocationDocumentExt>::resolve_revocation_bitmap$")
     if r3.require(bool(cands), ("resolve_revocation_bitmap", "ANCHOR"), "resolve_revocation_bitmap not found"):
-        h = F.hir(cands[0])
-        env = H.Env(h)
-        fns = H.called_fns(H.root(h))
-        rs = H.calls(h, CORE + "::resolve_service")
-        r3.require(len(rs) == 1 and H.origins(H.call_args(rs[0])[1], env) == {("param", "query")} and H.origins(H.call_args(rs[0])[0], env) == {("param", "self")}, (cands[0], "resolve"), "the bitmap service is not resolved with the given query in this document")
-        r3.require(any(re.search(r"RevocationBitmap as core::convert::TryFrom|core::convert::TryFrom::try_from$", f) for f in fns), (cands[0], "decode"), "the resolved service is not decoded with RevocationBitmap::try_from")
-        r3.site("resolve_revocation_bitmap = resolve_service(query).ok_or(..).and_then(RevocationBitmap::try_from)")
-    # TryFrom<&Service>: type check then endpoint
+        tab = SR.Table(F, cands[0], opaque=r"CoreDocument::resolve_service$|try_from$", rule=r3)
+        okr = bool(tab.ok())
+        for q in tab.ok():
+            rs = q.calls(r"CoreDocument::resolve_service$")
+            good = len(rs) == 1 and q.succeeded(rs[0]) is True and SR.pure(rs[0].args[0], SR.SELF) and SR.pure(rs[0].args[1], SR.param("query"))
+            if not r3.require(good, (cands[0], "resolve"), "the bitmap service is not resolved with the given query in this document"):
+                okr = False
+                continue
+            tf = [e for e in q.calls(r"try_from$") if e.args and SR.pure(e.args[0], ("payload", rs[0].result.t, "Some", 0))]
+            if not r3.require(len(tf) == 1 and SR.pure(q.ret, tf[0].result.t), (cands[0], "decode"), "the resolved service is not decoded with RevocationBitmap::try_from"):
+                okr = False
+        r3.site("resolve_revocation_bitmap = RevocationBitmap::try_from(resolve_service(query)?): %s" % okr)
+    # TryFrom<&Service>: the type list contains RevocationBitmap::TYPE, then try_from_endpoint(service_endpoint())
     cands = F.find(r"^<identity_credential::revocation::revocation_bitmap_2022::bitmap::RevocationBitmap as core::convert::TryFrom<&identity_document::service::service::Service>>::try_from$")
     if r3.require(bool(cands), ("TryFrom<&Service>", "ANCHOR"), "TryFrom<&Service> for RevocationBitmap not found"):
-        h = F.hir(cands[0])
-        env = H.Env(h)
-        gs = L.block_guards(H.root(h))
-        okt = False
-        for cond, oc, node in gs:
-            inner, neg = H.negated(cond)
-            consts = {x.get("res", {}).get("def") for x in H.walk(inner) if x.get("k") == "path"}
-            if neg and any(c and c.endswith("RevocationBitmap::TYPE") for c in consts) and oc.startswith("Err("):
-                okt = True
-        r3.require(okt, (cands[0], "type-check"), "the service type is not required to contain RevocationBitmap2022")
-        for n, oc in H.exits(h):
-            if not oc.startswith("Err("):
-                r3.require(H.origins(n, env) == {("call", RB + "::try_from_endpoint")}, (cands[0], "returns"), "TryFrom<&Service> does not decode the service endpoint")
-        r3.site("TryFrom<&Service>: type_ contains TYPE, then try_from_endpoint(service_endpoint())")
+        tab = SR.Table(F, cands[0], opaque=r"try_from_endpoint$|Service::(type_|service_endpoint)$|contains$", rule=r3)
+        ev_ = sym.Evaluator(F)
+        TYPE = ev_.const_value(RB + "::TYPE")
+        okt = bool(tab.ok())
+        SV = SR.param("service")
+        for q in tab.ok():
+            cs = [e for e in q.calls(r"contains$") if q.succeeded(e) is True and len(e.args) == 2 and e.args[1] == TYPE
+                  and SR.pure(e.args[0], ("call", "identity_document::service::service::Service::type_", (SV,)))]
+            if not r3.require(bool(cs), (cands[0], "type-check"), "the service type is not required to contain RevocationBitmap2022"):
+                okt = False
+            te = q.calls(r"try_from_endpoint$")
+            good = len(te) == 1 and SR.pure(te[0].args[0], ("call", "identity_document::service::service::Service::service_endpoint", (SV,))) and SR.pure(q.ret, te[0].result.t)
+            if not r3.require(good, (cands[0], "returns"), "TryFrom<&Service> does not decode the service endpoint"):
+                okt = False
+        r3.site("TryFrom<&Service>: type_ contains TYPE, then try_from_endpoint(service_endpoint()): %s" % okt)
     r3.floor(9)
 
     # ------------------------------------------------------------------ R4 status entry
